@@ -760,3 +760,16 @@ class ListCtorSeals(_CtorSeals):
         bad.append(f'{name}: is_sealed={d.is_sealed}, members sealed='
                    f'{[x.is_sealed for x in d.sym_values() if isinstance(x, pg.Symbolic)]}')
     return dict(outcome='reproduced' if bad else 'not-reproduced', detail='; '.join(bad) or 'sealed request honoured')
+
+
+# ---------------------------------------------------------------------------
+# The copy of a sealed DNA is sealed throughout (its re-attached metadata node
+# included): DNA._sym_clone is under contract in contracts/c12_dna_views.py;
+# the same contract is an obligation of write protection.
+
+from contracts.c12_dna_views import DnaSymClone as _DnaSymClone   # noqa: E402  pylint: disable=wrong-import-position
+
+
+@register
+class SealedDnaCloneIsSealed(_DnaSymClone):
+  prop = 'C08'
